@@ -26,7 +26,7 @@ def all_bare(c):
 
 def run(tier, seed):
     ctx = core.Ctx("C13", tier, seed, LEVEL)
-    cases = streams.tlc_cases(ctx, "MC_C15", "MC_C13_q", 40000 if tier == "quick" else None, seed)
+    cases = streams.tlc_cases(ctx, "MC_C15", "MC_C13_q", 25000 if tier == "quick" else None, seed)
     cases = [c for c in cases if c != all_bare(c)]
     trace, srcs = [], {}
     inp = [{"id": f"vec:{i}", "srcs": [c15.concretize(all_bare(c)), c15.concretize(c)]} for i, c in enumerate(cases)]
@@ -35,7 +35,7 @@ def run(tier, seed):
         srcs[x["id"]] = x["srcs"]
         trace.append(rewrite.relate(x["id"], "tokens", rr["runs"][0], rr["runs"][1]))
     # syn-level respelling / grouping of every instruction that is valid where it stands: repository + arm coverage + C04 sequences
-    ex = streams.exploration_sources(ctx, tier, seed, caps={"arms": 10000}, which=("arms", "c04", "repo"))
+    ex = streams.exploration_sources(ctx, tier, seed, caps={"arms": 8000}, which=("arms", "c04", "repo"))
     rw = core.project([{"id": i, "origin": s[0], "src": s[2]} for i, s in enumerate(ex)], mode="rewrite")
     inp = []
     for i, r in enumerate(rw):
